@@ -45,7 +45,13 @@ MANIFEST = dict(
          "agreement of the models of delete/pop with the real code (compared step by step along random histories in every "
          "spelling lookup accepts); the statement (tree equals a plain reference after each operation, returned values) is "
          "executed on the implementation.",
-    note="written values are fresh objects; wildcard / predicate / '..' paths are outside the quantifier of the property.",
+    note="written values are fresh objects; wildcard / predicate / '..' paths are outside the quantifier of the property. "
+         "Hidden lists (fix C03-e): lookup reads a node that is not a list as the list of this one item, so name[0] / [-1] / "
+         "[last()] are spellings lookup accepts; C05_delete_hidden_list proves that delete through such a spelling on the "
+         "single value of a key removes exactly that key (before the fix delete removed nothing and pop returned a value "
+         "that stayed); pop, recursive pruning through hidden indexes (o[0]/p/q, h[1][0]/x on an element of a list, where "
+         "the index written as a step of its own is passed over so that the element shifting into the place is not pruned) "
+         "are instances (C05_hidden_list_ok) + the histories, which render hidden indexes on any non-list node of a path.",
     design_ref="5/C05",
 )
 
@@ -75,7 +81,10 @@ def gen_history(rng, tree, nops):
             ops.append({"op": "popmiss", "xp": miss, "d": rng.choice([None, "D", 0])})
             continue
         p = rng.choice(poss)
-        xp = X.render(rng, ref, p)
+        # hidden lists: a node on the path that is not a list may be followed by [0] / [-1] / [last()], which lookup reads
+        # as the node itself - delete and pop must accept the spelling and remove the node itself
+        hid = []
+        xp = X.render(rng, ref, p, hidden=0.08, hidden_at=hid)
         if r < 0.45:
             rec = rng.random() < 0.5
             ops.append({"op": "del", "pos": list(p), "xp": xp, "rec": rec})
@@ -91,6 +100,8 @@ def gen_history(rng, tree, nops):
             v = copy.deepcopy(rng.choice(VALUES))
             ops.append({"op": "set", "pos": list(p), "xp": xp, "v": v})
             X.get_at(ref, p[:-1])[p[-1]] = copy.deepcopy(v)
+        if hid:
+            ops[-1]["hid"] = hid
     return ops
 
 
@@ -135,6 +146,9 @@ def valid_case(c):
     ref = copy.deepcopy(c["tree"])
     for op in c["ops"]:
         try:
+            for k in op.get("hid", []):     # a hidden index addresses the node only while the node is not a list
+                if isinstance(X.get_at(ref, op["pos"][:k]), list):
+                    return False
             if op["op"] in ("del", "pop"):
                 X.get_at(ref, op["pos"])
                 ref_delete(ref, op["pos"], op["rec"])
@@ -149,7 +163,13 @@ def valid_case(c):
 
 
 def shrink_failure(evaluator, case):
-    return core.shrink(case, lambda c: valid_case(c) and check_history(c) is not None, budget=300)
+    # a path text and the record of its hidden indexes stay together (and unchanged)
+    texts = {(op.get("xp"), tuple(op.get("hid", []))) for op in case.get("ops", [])}
+
+    def ok(c):
+        return valid_case(c) and all((op.get("xp"), tuple(op.get("hid", []))) in texts for op in c["ops"]) and check_history(c) is not None
+
+    return core.shrink(case, ok, budget=300)
 
 
 def replay(rp):
